@@ -116,6 +116,17 @@ def handleMusig : List String → String
     match hexToList? msg, parseTweakOpt? tw, (signers.splitOn ",").mapM parseSigner? with
     | some msg, some tw, some signers => session (sort == "1") msg tw signers
     | _, _, _ => "bad-op"
+  | ["ctx", sort, msg, tw, signers] =>
+    -- the Context/Session API is a wrapper around the same functions: same aggregate key and final signature
+    match hexToList? msg, parseTweakOpt? tw, (signers.splitOn ",").mapM parseSigner? with
+    | some msg, some tw, some signers =>
+      let out := (session (sort == "1") msg tw signers).splitOn " "
+      if out == ["err:keyagg"] then "err:keyagg" else
+      let agg := (out.filter (·.startsWith "agg=")).headD "agg=?"
+      if out.any (· == "err:sign") then agg ++ " err:sign"
+      else if signers.length == 1 then agg ++ " single"
+      else agg ++ " " ++ (out.filter (·.startsWith "sig=")).headD "sig=?"
+    | _, _, _ => "bad-op"
   | ["pverify", s, pn, an, keys, pk, msg, sort, tw] =>
     match hexToNat? s, hexToList? pn, hexToList? an, parseKeys? keys, hexToList? pk, hexToList? msg, parseTweakOpt? tw with
     | some s, some pn, some an, some keys, some pk, some msg, some tw =>
